@@ -314,12 +314,29 @@ async fn write_frame<W: tokio::io::AsyncWrite + Unpin>(w: &mut W, body: &[u8]) -
 thread_local! {
     /// Gap between two transfer messages on their way to the client (ms).
     static PACE_MS: std::cell::Cell<u64> = const { std::cell::Cell::new(0) };
+    /// The far end closes its side of the transfer connection right behind
+    /// the last message of a (full) transfer: an orderly end, everything has
+    /// been delivered before it.
+    static CLOSE_BEHIND_END: std::cell::Cell<bool> = const { std::cell::Cell::new(false) };
+}
+
+/// Is this the closing message of an AXFR (ends with the SOA; the opening
+/// message alone holds the SOA first)?
+fn ends_axfr(body: &[u8], frames_before: usize) -> bool {
+    match dns::view(body) {
+        Some(v) => {
+            let ans: Vec<_> = v.recs.iter().filter(|r| r.section == 1).collect();
+            ans.last().is_some_and(|r| r.rtype == Rtype::SOA) && (frames_before > 0 || ans.len() > 1)
+        }
+        None => false,
+    }
 }
 
 /// One direction of a proxied stream connection.
 #[allow(clippy::too_many_arguments)]
 async fn pump(led: Led, mut rd: tokio::io::ReadHalf<SimStream>, mut wr: tokio::io::WriteHalf<SimStream>, ids: Rc<RefCell<BTreeMap<u16, String>>>, cut: Rc<RefCell<bool>>, to_client: bool, mode: Mode, conn: usize) {
     let mut held: Option<Vec<u8>> = None;
+    let mut xfr_frames = 0usize;
     loop {
         if *cut.borrow() {
             break;
@@ -391,6 +408,10 @@ async fn pump(led: Led, mut rd: tokio::io::ReadHalf<SimStream>, mut wr: tokio::i
         if to_client && pace > 0 && key == "xfr" {
             sim::sleep_ms(pace).await;
         }
+        let close_behind = to_client && key == "xfr" && CLOSE_BEHIND_END.with(|c| c.get()) && fate == Fate::Pass && ends_axfr(&body, xfr_frames);
+        if to_client && key == "xfr" {
+            xfr_frames += 1;
+        }
         let mut out: Vec<Vec<u8>> = Vec::new();
         match fate {
             Fate::Pass => {
@@ -451,6 +472,11 @@ async fn pump(led: Led, mut rd: tokio::io::ReadHalf<SimStream>, mut wr: tokio::i
             if !write_frame(&mut wr, &f).await {
                 return;
             }
+        }
+        if close_behind {
+            sim::stat("fault.connection_closed_right_behind_the_transfer");
+            ev!("mb conn{} closes its side right behind the end of the transfer", conn);
+            break;
         }
     }
     if let Some(h) = held.take() {
@@ -799,11 +825,13 @@ async fn run(prop: &'static str, _tier: Tier) {
     // asks again over the same connection, while the server is still sending
     // the rest of the first one: the second transfer is one of its own.
     PACE_MS.with(|c| c.set(*sim::pick("xfr.pace_ms", &[0u64, 0, 2, 10])));
+
     // (Not with an IXFR in the server's one-record-per-message packaging: the
     // stream client takes its first message for the whole response - the
     // known finding - and lets go of the id while the rest is still coming.)
     let abandon_after = if sim::chance("xfr.abandon_first", 1, 4) && !(compat_mode && ixfr) { 1 + sim::draw("xfr.abandon_after", 2) } else { 0 };
     let abandon_pause_ms = *sim::pick("xfr.abandon_pause_ms", &[0u64, 1, 20, 150]);
+    CLOSE_BEHIND_END.with(|c| c.set(!ixfr && abandon_after == 0 && sim::chance("xfr.close_behind_end", 1, 4)));
     let mut xst_cfg = stream::Config::new();
     xst_cfg.set_response_timeout(Duration::from_millis(2000));
     xst_cfg.set_streaming_response_timeout(Duration::from_millis(3000));
